@@ -61,3 +61,13 @@ Proof.
   split; [intros r [<-|[<-|[]]]; repeat constructor; cbn; intuition lia|].
   split; [intros r x [<-|[<-|[]]]; unfold ranked; cbn; intuition lia|]. vm_compute. reflexivity.
 Qed.
+
+(** a closed form for one shape of input that the library can be run on at sizes no evaluation of the model can follow (BigScore.v): one
+    strict input ranking, the candidate that ties all its elements - T[0] for each of the n(n-1)/2 pairs.  The suite C01/big judges the
+    library's answer for tens of thousands of elements against this closed form. *)
+From Corankco Require Import BigScore.
+Theorem C01_all_tied_against_strict : forall s l, NoDup l -> t0 s = t1 s ->
+  kemeny_spec s [strict_of l] [l] * 2 = t0 s * (Z.of_nat (length l) * (Z.of_nat (length l) - 1)).
+Proof. exact all_tied_against_strict. Qed.
+Print Assumptions C01_all_tied_against_strict.
+
